@@ -202,6 +202,18 @@ func simGen(r *rand.Rand, tier string, n int) []*wire.Case {
 		mk("d-phase1-splash-kill-chars", t)
 	}
 	{
+		s := base() // kits whose skill and ultimate are aimed at different sides: every rule, named units of either side
+		s.ckind = []int{7, 8}
+		s.cenergy = []float64{100, 100}
+		s.ults = "1u100|2u100|1u101+2u102|1u3|2u1|1u1|2u3|1u102|2u101"
+		s.next = "1:s100,s1,s3|2:s100,s3,s2"
+		s.progs[0] = "Ap.1.1.100+Ns.200"
+		s.progs[1] = "Ap.1.1.100+Ns.200"
+		s.progs[2] = "Hp.10+Ns.200"
+		s.cycles = 5
+		mk("d-ult-other-side", s)
+	}
+	{
 		s := base() // both sides wiped out in the same death check (a killing blow paid for with the last HP): one decision, one termination
 		s.ckind, s.cspd, s.cenergy, s.cattack, s.cskill, s.cult = []int{0}, []float64{0}, []float64{0}, []int{0}, []int{1}, []int{3}
 		s.ehp, s.espd, s.eaction = []float64{500}, []float64{90}, []int{4}
@@ -505,7 +517,7 @@ func simGen(r *rand.Rand, tier string, n int) []*wire.Case {
 		}
 		var next, dflt []string
 		for c := 0; c < nc; c++ {
-			s.ckind = append(s.ckind, r.Intn(7))
+			s.ckind = append(s.ckind, r.Intn(9))
 			s.cspd = append(s.cspd, pick(r, 0.0, 0, 10, 25.5, 40))
 			s.cenergy = append(s.cenergy, pick(r, 0.0, 50, 90, 100, 120))
 			s.cattack = append(s.cattack, 1+r.Intn(nprogs-1))
